@@ -80,6 +80,7 @@ type fnEnc struct {
 	embIDs    map[string]int
 	invUse    map[string]bool
 	acquired  map[string]*state
+	fieldGuardCount map[string]int
 
 	deferred map[*ssa.BasicBlock][]*ssa.Defer // not path sensitive: in order of appearance
 	curBlock *ssa.BasicBlock
@@ -87,6 +88,7 @@ type fnEnc struct {
 	retSt    []*retPoint
 	retGoals [][]Term
 	curArgs  []Term
+	tpBind   map[string]types.Type
 	ghostTouched bool
 	alwaysCount int
 	curBindings map[string]SVal
@@ -218,7 +220,8 @@ func (e *fnEnc) needSort(s Sort) {
 			"(declare-fun byteAt (Str Int) Int)",
 			"(assert (forall ((s Str) (k Int)) (! (= (byteAt s k) (select (s-arr s) (+ (s-off s) k))) :pattern ((byteAt s k)))))")
 	case SAStr:
-		e.sortDecls = append(e.sortDecls, "(declare-sort AStr 0)", "(declare-fun alen (AStr) Int)")
+		e.sortDecls = append(e.sortDecls, "(declare-sort AStr 0)", "(declare-fun alen (AStr) Int)",
+			"(assert (forall ((a AStr)) (! (<= 0 (alen a)) :pattern ((alen a)))))")
 	case SSlice:
 		e.sortDecls = append(e.sortDecls,
 			"(declare-datatypes ((Slice 0)) (((mk-slice (sl-base Int) (sl-off Int) (sl-len Int) (sl-cap Int)))))")
